@@ -54,6 +54,9 @@ CONSTANTS Addr,       \* record: instance id -> address token
           MaxEvents,  \* bound on membership events
           Closed,     \* TRUE: entry still listed at now = expiry
           ObserveCb,  \* TRUE: the projection carries the callback firings
+          TrackQuiet, \* TRUE: count the ticks since the last membership event (needed by the
+                      \*   timed invariants; FALSE in the replayed graphs, where it would only
+                      \*   multiply the states: the same bounds are model-checked with TRUE)
           UnitMs      \* milliseconds per tick (passed to the harness)
 
 VARIABLES status, ent, hashed, hashIds, sincePub, fl, quiet, events, fired, act
@@ -179,7 +182,7 @@ Advance ==
   /\ ent' = [n \in Nodes |-> [m \in Nodes |-> Dec(ent[n][m])]]
   /\ fl' = [r \in Nodes |-> [m \in Nodes |-> [k \in Kinds |-> IF fl[r][m][k] >= 0 THEN fl[r][m][k] + 1 ELSE -1]]]
   /\ sincePub' = [n \in Nodes |-> IF status[n] = "up" THEN sincePub[n] + 1 ELSE 0]
-  /\ quiet' = IF quiet < Bound THEN quiet + 1 ELSE quiet
+  /\ quiet' = IF TrackQuiet /\ quiet < Bound THEN quiet + 1 ELSE quiet
   /\ fired' = {}
   /\ UNCHANGED <<status, hashed, hashIds, events>>
   /\ act' = [name |-> "Advance"]
@@ -251,4 +254,5 @@ GapsJitter2 == [a1 |-> {3, 4}, b1 |-> {3, 4}]
 GapsFixed3 == [a1 |-> {3}, b1 |-> {4}, c1 |-> {3}]
 GapsJitter3 == [a1 |-> {3, 4}, b1 |-> {3, 4}, c1 |-> {3, 4}]
 GapsRestart == [a1 |-> {3}, a2 |-> {4}, b1 |-> {3, 4}]
+GapsRestartF == [a1 |-> {3}, a2 |-> {3}, b1 |-> {4}]
 =============================================================================
